@@ -199,6 +199,28 @@ ADDED11 = {
     "C13": "C13.e / C14.j accept a handler that returns a non-zero status which every caller hands to sys.exit.",
     "C01": "C01.f accepts an early return under a flag that provably means 'every command finished'.",
 }
+ADDED12 = {
+    "C01": "C01.m: no execute body writes through an input (Engine C); C01.n: a cycle report needs a repeated node on the current path, not in the set of all nodes reached before.",
+    "C03": "C03.g: nothing read or computed is kept between executions unless every array taken out of what is kept is copied.",
+    "C04": "C04.f: the InvalidThresholds guard compares the final threshold values (reaching definitions).",
+    "C05": "C05.b: putmask / place / put / copyto with a shorter value vector and vectorize without otypes are position dependent.",
+    "C06": "C06.d: the two truest values are taken over all layers at once - a pairwise fold in FuzzyXOr is the violation.",
+    "C07": "C07.f: every execute signature accepts every declared input plus Metadata.",
+    "C08": "C08.n: conversions index cell by cell (no single axis of where/nonzero applied to the array); C08.o: Direction is read only where a default threshold is chosen.",
+    "C09": "C09.a: a starred call of a binary ufunc writes its third operand.",
+    "C10": "C10.f: the string body reaches the decoder as written (a backslash-plus-lookahead pre-pass is the violation, other pre-passes are undecided).",
+    "C11": "C11.e: a lineno handed to an error by a library command is a line of the command file.",
+    "C12": "C12.k: no result lookup while the file is being loaded; C12.l: no shipped command sets allow_extra_inputs.",
+    "C13": "C13.c: the handler around the string decoder covers the exception of the decoder actually called.",
+    "C14": "C14.j: an MPilotError goes on unchanged; C14.k: cleaners touch .result only under the is_finished guard.",
+    "C15": "C15.i: no memoised helper on the to_string path.",
+    "C16": "C16.b: the EEMS 2.0 conversion builds new nodes and leaves the parsed ones alone.",
+    "C17": "C17.j: the column is selected by the field name as given.",
+    "C18": "C18.j: a Fuzzy read is clamped on the returned object; C18.k: MissingValue is not narrowed on a live path.",
+    "C19": "C19.d: library names are used as given (no strip-family call with a multi-character argument); C19.a: no fixed module is admitted regardless of the selection.",
+}
+for _k, _v in ADDED12.items():
+    CLAIMS[_k]["text"] += " " + _v
 for _k, _v in ADDED11.items():
     CLAIMS[_k]["text"] += " " + _v
 for _k, _v in ADDED10.items():
